@@ -14,7 +14,8 @@ the absolute path of the sandbox base: the real temp directory on the Rust side,
                               the parser resolves the reference) it contributes the oracle only
   j <cfg> <fs> <iri>          JSON-LD document with remote contexts: oracle only (which IRIs the JSON-LD
                               processor asks for is not modelled; each of them goes through `ctxFetch` = `get`)
-  y <cfg> <fs> <iri> <kind>   sandbox with symbolic links (`s:` entries, ignored here): no prediction
+  y <cfg> <fs> <iri> <kind>   sandbox with symbolic links (`s:<relpath>:<target>` entries): the model with links
+                              (`getCurL`, outside the property) predicts what is read and from where
 
   cfg = `-` | `<ns>:<dir>(,<ns>:<dir>)*`
   fs  = `-` | entry(,entry)*  with entry = `f:<relpath>` (file with the canonical marker content)
@@ -78,6 +79,18 @@ def parseFs (tok : String) : Option FS :=
     | _ => none)
   pure ⟨(baseLoc, .dir) :: es.filterMap id⟩
 
+/-- the `s:` entries of a file-system token: (location of the link, target) -/
+def parseLinks (tok : String) : Option (List (List Str × Str)) :=
+  if tok == "-" then some [] else do
+  let es ← (tok.splitOn ",").mapM (fun e =>
+    match e.splitOn ":" with
+    | ["s", p, t] => do
+      let rel ← stringOfHex p
+      let target ← charsOfHex t
+      pure (some (relLoc rel, subst target))
+    | _ => pure none)
+  pure (es.filterMap id)
+
 def newErrName : NewErr → String
   | .iriMustEndWithSlash => "slash"
   | .pathMustBeAbsolute => "abs"
@@ -89,6 +102,7 @@ def openErrName : OpenErr → String
   | .isDir => "isdir"
   | .nameTooLong => "toolong"
   | .nul => "nul"
+  | .loop => "loop"
 
 /-- where the opened path lands, relative to the sandbox base -/
 def readName (p : Str) : String :=
@@ -101,37 +115,107 @@ def feats : Features := allFeats
 
 def modes : List String := ["one", "any", "all", "items", "pred"]
 
-/-- `l` requests.  With `link = some t` (an absolute IRI planted verbatim in an N-Triples document):
-`get_resource(doc)` then `get_neighbour` on `t`, the base being the fragment-less document IRI. -/
-def handleL (c f i p : String) (link : Option Str) : String :=
+/-- the harness builds its loader with `new(first pair)` + `add(..)` (`Default` when there is none) when this
+hash of the request's IRI token is odd, with `new(all)` otherwise; so does the model -/
+def viaAdd (tok : String) : Bool :=
+  tok.toList.foldl (fun a c => (a * 31 + c.toNat) % 4294967296) 0 % 2 == 1
+
+def build (fs : FS) (caches : List (Str × Str)) (va : Bool) : Except NewErr Cfg :=
+  if va then
+    match caches with
+    | [] => .ok []
+    | c :: rest => do
+      let l ← Loader.new fs [c]
+      rest.foldlM (fun acc nd => Loader.add fs acc nd) l
+  else Loader.new fs caches
+
+/-! the N-Triples documents the generator writes: `<s> <p> <o> .` lines over IRIs, `_:b` nodes and plain
+literals without spaces -/
+def parseTerm (t : Str) : Option RTerm :=
+  match t with
+  | '<' :: rest => if rest.getLast? = some '>' then some (.iri rest.dropLast) else none
+  | '_' :: ':' :: rest => some (.bnode rest)
+  | '"' :: rest => some (.lit rest)
+  | _ => none
+
+def splitOnChar (c : Char) (s : Str) : List Str :=
+  (s.foldr (fun x acc => if x = c then [] :: acc else match acc with
+    | h :: t => (x :: h) :: t
+    | [] => [[x]]) [[]])
+
+def parseNt (content : Str) : Option RGraph :=
+  ((splitOnChar '\n' content).filter (· ≠ [])).mapM (fun line =>
+    match splitOnChar ' ' line with
+    | [a, b, c, ['.']] => do
+      let s ← parseTerm a
+      let p ← parseTerm b
+      let o ← parseTerm c
+      pure (s, p, o)
+    | _ => none)
+
+def pLink : RTerm := .iri "urn:vh:p".toList
+def pList : RTerm := .iri "urn:vh:q".toList
+def pRev : RTerm := .iri "urn:vh:r".toList
+def ntType : Str := "application/n-triples".toList
+
+/-- the entry point of `Resource` a mode stands for, on the model: the `Follow` it returns, if any -/
+def followBy (mode : String) (E : Env) (r : Res) : Option Follow :=
+  match mode with
+  | "one" => match (getResource E r pLink).1 with | .ok F => some F | .error _ => none
+  | "any" => (getAnyResource E r pLink).1
+  | "all" => (getAllResources E r pLink).head?
+  | "items" => (getResourceItems E r pList (r.graph.length + 1)).head?
+  | "pred" => match (predResource E r pRev).1 with | .ok F => some F | .error _ => none
+  | _ => none
+
+def followReply (cfg : Cfg) (t : Str) : Follow → List String
+  | .notAbsolute => [kv "fres" "notabsolute", kv "read" "none"]
+  | .sameDoc => [kv "fres" "samedoc", kv "read" "none"]
+  | .loaded (.ok q _ _) => [kv "fres" "read", kv "read" (readName q), kvB "mescaped" (!decide (ConfinedAt cfg t q))]
+  | .loaded (.err e) =>
+    let r := match e with
+      | .unsupported => "unsupported"
+      | .notFound => "notfound"
+      | .io _ => "io"
+    [kv "fres" r, kv "read" "none"]
+
+/-- `l` requests.  `get_resource(doc#lk)`, then the entry point named by the mode.  For an N-Triples
+document the model parses it, finds the link itself (`get_term(P_LINK)`) and runs its own `Resource`
+model (`getResource` / `getAnyResource` / `getAllResources` / `getResourceItems` / `predResource`); for the
+other documents (Turtle: the parser resolves references) it contributes the oracle only. -/
+def handleL (c f i p mode : String) (link : Option Str) : String :=
   match parseCfg c, parseFs f, charsOfHex i, charsOfHex p with
-  | some caches, some fs, some doc0, some _ =>
-    match Loader.new fs caches with
+  | some caches, some fs, some iri0, some _ =>
+    match build fs caches (viaAdd i) with
     | .error e => reply [kv "new" (newErrName e)]
     | .ok cfg =>
       -- `linkdiff` (following a link reads what `get` reads for that IRI) is model behaviour, not the property
       let oracle := [kv "new" "ok", kv "o.escaped" "0", kv "linkdiff" "0"]
-      match link with
-      | none => reply oracle
-      | some t0 =>
-        let doc := subst doc0
-        let t := subst t0
-        match getResourceRead (getCur feats) cfg fs doc with
-        | .err _ => reply oracle
-        | .ok _ _ _ =>
-          -- N-Triples terms are absolute IRIs (the generator plants nothing else there)
-          match getNeighbour (fun _ => true) (getCur feats) cfg fs (some (stripFragment doc)) t with
-          | .notAbsolute => reply (oracle ++ [kv "fres" "notabsolute", kv "read" "none"])
-          | .sameDoc => reply (oracle ++ [kv "fres" "samedoc", kv "read" "none"])
-          | .loaded (.ok q _ _) =>
-            reply (oracle ++ [kv "fres" "read", kv "read" (readName q),
-                              kvB "mescaped" (!decide (ConfinedAt cfg t q))])
-          | .loaded (.err e) =>
-            let r := match e with
-              | .unsupported => "unsupported"
-              | .notFound => "notfound"
-              | .io _ => "io"
-            reply (oracle ++ [kv "fres" r, kv "read" "none"])
+      let iri := subst iri0
+      match getResourceRead (getCur feats) cfg fs iri with
+      | .err _ => reply oracle
+      | .ok _ data ct =>
+        match (if ct = ntType then parseNt data else none) with
+        | none => reply oracle
+        | some g =>
+          let E : Env := ⟨fun _ => true, getCur feats, cfg, fs⟩
+          let r : Res := ⟨.iri iri, some (stripFragment iri), g⟩
+          match getTerm r pLink with
+          | .ok (.iri t) =>
+            let given := match link with
+              | some l => [kvB "linkgiven" (subst l == t)]
+              | none => []
+            match followBy mode E r with
+            | some F => reply (oracle ++ followReply cfg t F ++ given ++ [kv "graph" (toString g.length)])
+            | none => reply (oracle ++ given)
+          | .error .multiple =>
+            let one := match (getResource E r pLink).1 with
+              | .error .multiple => "multiple"
+              | .ok _ => "ok"
+              | .error .noValue => "err"
+            reply (oracle ++ [kv "link" "multiple", kv "one" one])
+          | .error .noValue => reply (oracle ++ [kv "link" "none"])
+          | .ok _ => reply (oracle ++ [kv "link" "notiri"])
   | _, _, _, _ => "bad-hex"
 
 def handle (line : String) : String :=
@@ -140,7 +224,7 @@ def handle (line : String) : String :=
     match parseCfg c, parseFs f, charsOfHex i with
     | some caches, some fs, some iri0 =>
       let iri := subst iri0
-      match Loader.new fs caches with
+      match build fs caches (viaAdd i) with
       | .error e => reply [kv "new" (newErrName e)]
       | .ok cfg =>
         let safe := decide (SafeIri cfg iri)
@@ -158,29 +242,50 @@ def handle (line : String) : String :=
           reply [kv "new" "ok", kv "feat" "jsonld+xml", kv "res" r, kv "io" io, kv "read" "none", kv "ct" "none",
                  kv "escaped" "0", kv "o.escaped" "0", kvB "safe" safe, kvB "guard" Gen.LoaderExts.guardPresent]
     | _, _, _ => "bad-hex"
-  | ["l", c, f, i, p] => handleL c f i p none
-  | ["l", c, f, i, p, m] => if modes.contains m then handleL c f i p none else "bad-op"
+  | ["l", c, f, i, p] => handleL c f i p "one" none
+  | ["l", c, f, i, p, m] => if modes.contains m then handleL c f i p m none else "bad-op"
   | ["l", c, f, i, p, m, g] =>
     if !modes.contains m then "bad-op"
-    else if g == "-" then handleL c f i p none
+    else if g == "-" then handleL c f i p m none
     else match charsOfHex g with
-      | some link => handleL c f i p (some link)
+      | some link => handleL c f i p m (some link)
       | none => "bad-hex"
   | ["j", c, f, i] =>
     match parseCfg c, parseFs f, charsOfHex i with
     | some caches, some fs, some _ =>
-      match Loader.new fs caches with
+      match build fs caches (viaAdd i) with
       | .error e => reply [kv "new" (newErrName e)]
       | .ok _ => reply [kv "new" "ok", kv "o.escaped" "0", kv "unlogged" "0", kv "spysame" "1"]
     | _, _, _ => "bad-hex"
   | ["y", c, f, i, k] =>
     if k != "in" && k != "out" then "bad-op" else
-    match parseCfg c, parseFs f, charsOfHex i with
-    | some caches, some fs, some _ =>
-      match Loader.new fs caches with
+    match parseCfg c, parseFs f, parseLinks f, charsOfHex i with
+    | some caches, some fs, some links, some iri0 =>
+      match build fs caches (viaAdd i) with
       | .error e => reply [kv "new" (newErrName e)]
-      | .ok _ => reply [kv "new" "ok"]
-    | _, _, _ => "bad-hex"
+      | .ok cfg =>
+        let iri := subst iri0
+        let fsl : FSL := ⟨fs, links⟩
+        let fuel := 5000
+        match getCurL feats cfg fsl fuel iri with
+        | .ok q _ _ =>
+          -- where the OS finds the file behind the opened path
+          let loc := match statL fsl fuel q with
+            | .ok (l, _) => l
+            | .error _ => []
+          let name := match loc with
+            | b :: rest => if [b] = baseLoc ∧ rest ≠ [] then hexOfChars (List.intercalate ['/'] rest) else "outside"
+            | [] => "outside"
+          let inside := cfg.any (fun nd => nd.1.isPrefixOf (stripFragment iri) && (osResolve nd.2).isPrefixOf loc)
+          reply [kv "new" "ok", kv "sym" "ok", kv "symread" name, kvB "symesc" (!inside),
+                 kvB "lexical" (decide (ConfinedAt cfg iri q))]
+        | .err e =>
+          let r := match e with
+            | .unsupported => "unsupported"
+            | .notFound => "notfound"
+            | .io _ => "io"
+          reply [kv "new" "ok", kv "sym" r, kv "symread" "none", kv "symesc" "0"]
+    | _, _, _, _ => "bad-hex"
   | _ => "bad-op"
 
 abbrev State := Unit
